@@ -211,7 +211,8 @@ impl<'a> G<'a> {
         let mut rep = Rep::Unlimited;
         let mut size = in_size;
         for _ in 0..n {
-            let op = match self.rng.below(12) {
+            let fan = self.cfg.focus == Focus::Fan && size <= 300 && self.rng.chance(1, 3);
+            let op = match if fan { 11 } else { self.rng.below(12) } {
                 0 | 1 => UOp::Map { mul: self.rng.range(-2, 3), add: self.rng.range(-5, 5) },
                 2 => UOp::MapState,
                 3 => UOp::Filter { m: self.rng.range(2, 5), r: 0 },
@@ -221,7 +222,7 @@ impl<'a> G<'a> {
                 7 => self.keyed_agg_op(),
                 8 if !iterate => self.global_agg_op(),
                 9 => UOp::CountWindow { n: self.rng.usize(1, 4), s: 1, exact: self.rng.chance(1, 2), content: false },
-                11 if size <= 300 => UOp::SplitZip { m: self.rng.range(2, 4), filter_left: self.rng.chance(1, 2) },
+                11 if size <= 300 => UOp::SplitZip { m: self.rng.range(2, 4), m2: self.rng.range(2, 4) },
                 10 if !iterate && depth == 0 && size <= 100 => {
                     let body = self.body(false, depth + 1, size);
                     UOp::Replay { rounds: self.rng.usize(1, 3), body, stop_m: self.rng.range(2, 5), stop_r: self.rng.range(0, 1) }
@@ -231,6 +232,9 @@ impl<'a> G<'a> {
             // replay needs an unlimited input block
             if matches!(op, UOp::Replay { .. }) && rep != Rep::Unlimited {
                 ops.push(UOp::Shuffle);
+            }
+            if fan && matches!(op, UOp::SplitZip { .. }) {
+                ops.push(UOp::MapState);
             }
             match &op {
                 UOp::Shuffle | UOp::GroupByFold(_) | UOp::GroupByReduce(_) | UOp::GroupByFold2(_)
@@ -262,7 +266,7 @@ impl<'a> G<'a> {
             Focus::All => [6, 4, 2, 4, 4, 4, 3, 4],
             Focus::Agg => [3, 10, 5, 3, 0, 1, 1, 2],
             Focus::Join => [3, 1, 0, 3, 12, 1, 0, 1],
-            Focus::Fan => [3, 1, 0, 3, 1, 12, 0, 2],
+            Focus::Fan => [3, 1, 0, 3, 1, 12, 4, 2],
             Focus::Seq => [10, 0, 2, 1, 0, 2, 0, 2],
             Focus::Loops => [3, 2, 1, 3, 1, 1, 12, 1],
             Focus::Links => [4, 3, 1, 8, 3, 5, 1, 2],
@@ -416,7 +420,7 @@ impl<'a> G<'a> {
                     self.open.push(VarInfo { id: out, rep: Rep::One, total: positional, size: a.size.min(b.size) });
                 }
                 5 if self.rng.chance(1, 2) => {
-                    let op = UOp::SplitZip { m: self.rng.range(2, 4), filter_left: self.rng.chance(1, 2) };
+                    let op = UOp::SplitZip { m: self.rng.range(2, 4), m2: self.rng.range(2, 4) };
                     let nv = self.push_op(v, op, Rep::One, false, v.size);
                     self.open.push(nv);
                 }
